@@ -180,7 +180,10 @@ def drive(run, binary, args, tag, extra_env=None, timeout=900):
     if p.returncode != 0:
         vp.log(p.stdout[-2000:])
         vp.log(p.stderr[-6000:])
-        raise vp.Undecided("driver failed (exit %d): %s" % (p.returncode, " ".join(map(str, args))))
+        keep = os.path.join(vp.VERIF, ".work", "driverfail-C12-%d-%s.txt" % (run.seed, tag))
+        with open(keep, "w") as f:
+            f.write(p.stderr[-200000:])
+        raise vp.Undecided("driver failed (exit %d): %s (stderr kept: %s)" % (p.returncode, " ".join(map(str, args)), keep))
     try:
         return json.loads(p.stdout.strip().splitlines()[-1]), p.stderr
     except Exception:
